@@ -1288,7 +1288,7 @@ def gen_from_fn(lhs, rhs, ctx):
     def gen():
         yield from lhs
 
-        made = lhs
+        made = list(lhs)
 
         while True:
             next_item = safe_apply(rhs, *made, ctx=ctx)
